@@ -6,6 +6,11 @@
 //! superposition and scaling (1e-4 of peak), finiteness over long runs at parameter edges; the identity
 //! settings reached through a modulator + mapping (value at / beyond the end of the input range, every easing);
 //! finiteness across histories of device sample rates (on_change_sample_rate, also before the first frame).
+//! An effect hosted by a SEND TRACK of a real manager (custom backend owning the renderer) across device rate changes
+//! (idle, in flight before the first callback, mid-stream): output independent of the callback partition (bit-exact)
+//! and equal to the bare effect told about each device rate once; directed scenarios first, then seeded histories,
+//! short ones also as CaseSR model cases.
+use crate::backend::*;
 use crate::util::*;
 use kira::effect::compressor::CompressorBuilder;
 use kira::effect::delay::DelayBuilder;
@@ -18,6 +23,8 @@ use kira::effect::volume_control::VolumeControlBuilder;
 use kira::effect::{Effect, EffectBuilder};
 use kira::info::{Info, MockInfoBuilder};
 use kira::modulator::ModulatorId;
+use kira::sound::{Sound, SoundData};
+use kira::track::{SendTrackBuilder, TrackBuilder};
 use kira::{Decibels, Easing, Frame, Mapping, Mix, Panning, Value};
 use std::collections::BTreeSet;
 use std::time::Duration;
@@ -878,6 +885,282 @@ fn run_history(cx: &Ctx, d: &Desc, t: usize, segs: &[(u32, Vec<Frame>)]) -> Outc
 	})
 }
 
+// ------------------------------------------------------------------ an effect hosted by a send track of a real manager
+
+/// plays a list of frames verbatim (times `sign`), then silence; never finishes
+struct Verbatim {
+	frames: Vec<Frame>,
+	sign: f32,
+	pos: usize,
+}
+impl Sound for Verbatim {
+	fn process(&mut self, out: &mut [Frame], _dt: f64, _info: &Info) {
+		for f in out.iter_mut() {
+			*f = self.frames.get(self.pos).copied().unwrap_or(Frame::ZERO) * self.sign;
+			self.pos += 1;
+		}
+	}
+	fn finished(&self) -> bool {
+		false
+	}
+}
+impl SoundData for Verbatim {
+	type Error = ();
+	type Handle = ();
+	fn into_sound(self) -> Result<(Box<dyn Sound>, ()), ()> {
+		Ok((Box::new(self), ()))
+	}
+}
+
+/// A history of an effect that lives on a SEND TRACK of a manager (custom backend owning the renderer):
+/// the manager is created at `sr0` (the rate the effect is `init`-ed with on the game thread), the device
+/// rate may change before the renderer has seen the track (`in_flight`), then the segments run in order:
+/// an optional device rate change, then `frames` frames rendered in callbacks.  Before segment
+/// `play_before` a sub-track routed at 0 dB to the send track starts playing `x`, and a second sub-track
+/// WITHOUT a send starts playing `-x`: on the main bus `x + (-x)` is exactly 0, so the device output is
+/// exactly the send track's output = effect(x) (clamped to -1..1 by the renderer).
+#[derive(Clone, Debug)]
+struct SendHist {
+	ibs: usize,
+	sr0: u32,
+	in_flight: Option<u32>,
+	segs: Vec<(Option<u32>, usize)>,
+	play_before: usize,
+}
+
+/// the callback sizes of every segment
+type Parts = Vec<Vec<usize>>;
+
+fn run_on_send_track(d: &Desc, h: &SendHist, parts: &Parts, x: &[Frame]) -> Outcome<Vec<Frame>> {
+	catch(|| {
+		let mut m = simple_manager(h.sr0, h.ibs);
+		let send = m.add_send_track(SendTrackBuilder::new().with_effect(Boxed(d.clone()))).unwrap();
+		let mut with_send = m.add_sub_track(TrackBuilder::new().with_send(&send, Decibels::IDENTITY)).unwrap();
+		let mut cancel = m.add_sub_track(TrackBuilder::new()).unwrap();
+		if let Some(r) = h.in_flight {
+			m.backend_mut().set_sample_rate(r);
+		}
+		let mut out = vec![];
+		for (k, (change, _)) in h.segs.iter().enumerate() {
+			if k == h.play_before {
+				with_send.play(Verbatim { frames: x.to_vec(), sign: 1.0, pos: 0 }).unwrap();
+				cancel.play(Verbatim { frames: x.to_vec(), sign: -1.0, pos: 0 }).unwrap();
+			}
+			if let Some(r) = change {
+				m.backend_mut().set_sample_rate(*r);
+			}
+			for &n in &parts[k] {
+				out.extend(m.backend_mut().callback_stereo(n));
+			}
+		}
+		out
+	})
+}
+
+/// What the property's effect-level laws say the send track must output: the bare effect, told about every
+/// device rate exactly once (at `init` the rate of the manager, afterwards `on_change_sample_rate` per device
+/// change once the renderer has the track; a change that happened before that is passed on at the first
+/// callback), fed silence until the sound starts and `x` from then on, in process calls of at most `ibs` frames.
+fn ref_on_send_track(cx: &Ctx, d: &Desc, h: &SendHist, parts: &Parts, x: &[Frame]) -> Outcome<Vec<Frame>> {
+	catch(|| {
+		let mut e = d.build();
+		e.init(h.sr0, h.ibs);
+		let mut told = h.sr0;
+		let mut dev = h.sr0;
+		let mut picked_up = false;
+		if let Some(r) = h.in_flight {
+			dev = r;
+		}
+		let mut pos: Option<usize> = None;
+		let mut out = vec![];
+		for (k, (change, _)) in h.segs.iter().enumerate() {
+			if k == h.play_before {
+				pos = Some(0);
+			}
+			if let Some(r) = change {
+				dev = *r;
+				if picked_up {
+					e.on_change_sample_rate(dev);
+					told = dev;
+				}
+			}
+			for &n in &parts[k] {
+				picked_up = true;
+				if told != dev {
+					e.on_change_sample_rate(dev);
+					told = dev;
+				}
+				e.on_start_processing();
+				let dt = 1.0 / dev as f64;
+				let mut buf: Vec<Frame> = (0..n)
+					.map(|i| match pos {
+						Some(p) => x.get(p + i).copied().unwrap_or(Frame::ZERO),
+						None => Frame::ZERO,
+					})
+					.collect();
+				if let Some(p) = pos.as_mut() {
+					*p += n;
+				}
+				for c in buf.chunks_mut(h.ibs) {
+					e.process(c, dt, &cx.info);
+				}
+				out.extend(buf);
+			}
+		}
+		out
+	})
+}
+
+/// the renderer's last step: NaN -> 0, clamp to -1..1
+fn device_clamp(f: Frame) -> Frame {
+	let c = |v: f32| if v.is_nan() { 0.0 } else { v.clamp(-1.0, 1.0) };
+	Frame::new(c(f.left), c(f.right))
+}
+
+fn describe_send(d: &Desc, h: &SendHist, x_desc: &str) -> String {
+	let mut t = format!("{:?} as the only effect of a SEND TRACK (internal buffer {} frames), manager created at {} Hz", d, h.ibs, h.sr0);
+	if let Some(r) = h.in_flight {
+		t += &format!(", device rate -> {} Hz before the renderer's first callback", r);
+	}
+	for (k, (change, n)) in h.segs.iter().enumerate() {
+		if k == h.play_before {
+			t += &format!("; a sub-track with a 0 dB send plays x = {} (a second sub-track plays -x so that the device output is the send track's output alone)", x_desc);
+		}
+		match change {
+			Some(r) => t += &format!("; device rate -> {} Hz, {} frames", r, n),
+			None => t += &format!("; {} frames", n),
+		}
+	}
+	t
+}
+
+/// callbacks of `size` frames (the last one shorter) per segment
+fn parts_fixed(h: &SendHist, size: usize) -> Parts {
+	h.segs
+		.iter()
+		.map(|&(_, n)| {
+			let mut v = vec![size; n / size];
+			if n % size != 0 {
+				v.push(n % size);
+			}
+			v
+		})
+		.collect()
+}
+fn parts_random(r: &mut Rng, h: &SendHist, max: usize) -> Parts {
+	h.segs
+		.iter()
+		.map(|&(_, n)| {
+			let mut v = vec![];
+			let mut left = n;
+			while left > 0 {
+				let k = (r.range(1, max as i64) as usize).min(left);
+				v.push(k);
+				left -= k;
+			}
+			v
+		})
+		.collect()
+}
+
+/// The two monitors for one history: (a) the output does not depend on the callback partition (bit for bit),
+/// (b) it is what the bare effect gives for the same signal and the same sequence of device rates.
+/// Returns the output of partition `pa` and the reference when everything ran.
+fn check_send_track(s: &mut Session, cx: &Ctx, d: &Desc, h: &SendHist, pa: &Parts, pb: &Parts, x: &[Frame], x_desc: &str, pdesc: &str) -> Option<(Vec<Frame>, Vec<Frame>)> {
+	s.eval_only("mon_send_track_rate_history");
+	let a = run_on_send_track(d, h, pa, x);
+	let b = run_on_send_track(d, h, pb, x);
+	let r = ref_on_send_track(cx, d, h, pa, x);
+	let what = describe_send(d, h, x_desc);
+	match (a, b, r) {
+		(Outcome::Ok(a), Outcome::Ok(b), Outcome::Ok(r)) => {
+			if let Some(ix) = same_bits(&a, &b) {
+				s.fail(what, format!("the effect's output depends on how the stream is split into callbacks ({pdesc}): frame {ix} is {:?} with the first partition and {:?} with the second (the bare effect gives {:?})", a.get(ix), b.get(ix), r.get(ix).map(|f| device_clamp(*f))), None);
+				return None;
+			}
+			if let Some(ix) = (0..a.len().max(r.len())).find(|&i| match (a.get(i), r.get(i)) {
+				(Some(p), Some(q)) => {
+					let q = device_clamp(*q);
+					!(p.left == q.left && p.right == q.right)
+				}
+				_ => true,
+			}) {
+				s.fail(what, format!("the send track's output is not the effect's output for the same signal and the same sequence of device rates ({pdesc}): frame {ix} is {:?}, the bare effect (init at the manager's rate, on_change_sample_rate once per device change) gives {:?}", a.get(ix), r.get(ix).map(|f| device_clamp(*f))), None);
+				return None;
+			}
+			Some((a, r))
+		}
+		_ => {
+			s.fail(what, format!("panicked: {}", last_panic()), None);
+			None
+		}
+	}
+}
+
+/// the input of the directed scenarios: exact dyadic values, |x| < 0.2, never zero twice in a row
+fn directed_input(n: usize) -> Vec<Frame> {
+	(0..n)
+		.map(|i| {
+			let v = ((i * 37 % 101) as f32 - 50.0) / 256.0;
+			Frame::new(v, -v * 0.5)
+		})
+		.collect()
+}
+
+/// send `out` (what the implementation did) as the observable of the model case CaseSR
+fn emit_obs_sr(s: &mut Session, kind: &str, d: &Desc, sr1: u32, sr2: u32, t: usize, sl1: &[usize], in1: &[Frame], sl2: &[usize], in2: &[Frame], out: &[Frame]) {
+	let mut obs = vec![0];
+	obs.extend(frames_obs(out));
+	let mut tab = Tab::new();
+	d.oracle(sr1, &mut tab);
+	d.oracle(sr2, &mut tab);
+	comp_oracle(d, &[(sr1, in1), (sr2, in2)], &mut tab);
+	let tabs = format!("[{}]", tab.iter().map(|(t, a, b)| format!("({}, {}, {})", t, z(*a), z(*b))).collect::<Vec<_>>().join("; "));
+	let fr = |v: &[Frame]| format!("[{}]", v.iter().map(|f| format!("({}, {})", f32_bits_z(f.left), f32_bits_z(f.right))).collect::<Vec<_>>().join("; "));
+	let sl = |v: &[usize]| format!("[{}]", v.iter().map(|x| x.to_string()).collect::<Vec<_>>().join("; "));
+	let term = format!("CaseSR {} {} {} {} {} {} {} {} {}", sr1, sr2, t, tabs, d.term(), sl(sl1), fr(in1), sl(sl2), fr(in2));
+	let key = Some(format!("{:016x}", hash(&term)));
+	s.case(kind, term, &obs, key);
+}
+
+/// the process calls the renderer makes for callbacks of the given sizes
+fn chunks_of(callbacks: &[usize], ibs: usize) -> Vec<usize> {
+	let mut v = vec![];
+	for &n in callbacks {
+		let mut left = n;
+		while left > 0 {
+			let k = left.min(ibs);
+			v.push(k);
+			left -= k;
+		}
+	}
+	v
+}
+
+/// A short history of the shape [frames at sr0] ; one device rate change ; [frames at sr1] as a model case
+/// (CaseSR): the observable is what the MANAGER's device output was.  Only sent when the reference has no
+/// clamped sample and no negative zero (the mixer's `0 + y` turns -0 into +0).
+fn model_send_track(s: &mut Session, cx: &Ctx, d: &Desc, ibs: usize, sr0: u32, sr1: u32, n0: usize, in_flight: bool, pa: &Parts, pb: &Parts, x: &[Frame], x_desc: &str) {
+	let h = if in_flight {
+		SendHist { ibs, sr0, in_flight: Some(sr1), segs: vec![(None, pa[0].iter().sum())], play_before: 0 }
+	} else {
+		SendHist { ibs, sr0, in_flight: None, segs: vec![(None, n0), (Some(sr1), pa[1].iter().sum())], play_before: 0 }
+	};
+	if let Some((a, r)) = check_send_track(s, cx, d, &h, pa, pb, x, x_desc, "two generated partitions") {
+		let plain = r.iter().all(|f| [f.left, f.right].iter().all(|v| v.abs() <= 1.0 && !(*v == 0.0 && v.is_sign_negative())));
+		if plain {
+			let total: usize = h.segs.iter().map(|p| p.1).sum();
+			let input: Vec<Frame> = (0..total).map(|i| x.get(i).copied().unwrap_or(Frame::ZERO)).collect();
+			if in_flight {
+				emit_obs_sr(s, "send_track_rate_history", d, sr0, sr1, ibs, &[], &[], &chunks_of(&pa[0], ibs), &input, &a);
+			} else {
+				emit_obs_sr(s, "send_track_rate_history", d, sr0, sr1, ibs, &chunks_of(&pa[0], ibs), &input[..n0], &chunks_of(&pa[1], ibs), &input[n0..], &a);
+			}
+		}
+	}
+}
+
+
 pub fn run(args: &Args) {
 	let mut rng = Rng::new(args.seed ^ 0xC13);
 	let mul = args.budget_mul as usize;
@@ -890,6 +1173,36 @@ pub fn run(args: &Args) {
 		"one model case = one built-in effect (or a delay with nested feedback effects) built by its public builder, init at a sample rate, processing a generated signal in a generated slicing; observable = every output sample as binary32 bits (or the panic kind); distinct = distinct (effect, parameters, rate, slicing, input) with a non-zero input",
 	);
 	let cx = Ctx { info: MockInfoBuilder::new().build() };
+
+	// =============================================================== effects hosted by a send track, across device rate changes
+	// (directed: runs first on every run, independent of the seed)  "Every effect's output is independent of how
+	// the input is split into process calls" for an effect that a real manager hosts on a send track while the
+	// device rate changes: the track must tell the effect about each device rate ONCE; an effect with rate
+	// dependent state (delay line, reverb network) that is told again at every callback loses its state at
+	// every callback boundary, i.e. its output depends on the callback partition.
+	{
+		let delay5 = Delay { time: Duration::from_millis(5), fb: -6.0, mix: 1.0, fx: vec![] };
+		let nested = Delay { time: Duration::from_millis(3), fb: -9.0, mix: 0.5, fx: vec![Filter { mode: 0, cutoff: 3000.0, res: 0.25, mix: 1.0 }, Delay { time: Duration::from_micros(1500), fb: -12.0, mix: 0.5, fx: vec![] }] };
+		let reverb = Reverb { fb: 0.5, damp: 0.5, width: 1.0, mix: 1.0 };
+		let directed: Vec<(Desc, SendHist)> = vec![
+			// the device switches 48 kHz -> 44.1 kHz while the track is idle, the sound starts afterwards
+			(delay5.clone(), SendHist { ibs: 128, sr0: 48000, in_flight: None, segs: vec![(None, 512), (Some(44100), 512), (None, 4096)], play_before: 2 }),
+			// the device rate changes between add_send_track and the renderer's first callback
+			(delay5.clone(), SendHist { ibs: 128, sr0: 48000, in_flight: Some(44100), segs: vec![(None, 4096)], play_before: 0 }),
+			// the rate changes while the sound is playing
+			(nested, SendHist { ibs: 64, sr0: 44100, in_flight: None, segs: vec![(None, 1024), (Some(22050), 3072)], play_before: 0 }),
+			(reverb, SendHist { ibs: 128, sr0: 8000, in_flight: None, segs: vec![(None, 256), (Some(11025), 4096)], play_before: 1 }),
+			// back to the rate the track started with
+			(delay5, SendHist { ibs: 512, sr0: 44100, in_flight: None, segs: vec![(None, 100), (Some(96000), 100), (Some(44100), 4096)], play_before: 2 }),
+		];
+		let x = directed_input(2048);
+		let x_desc = "2048 frames, frame i = (v, -v/2) with v = ((37 i mod 101) - 50) / 256, then silence";
+		for (d, h) in directed.iter() {
+			for (sa, sb) in [(64usize, 512usize), (100, 700)] {
+				check_send_track(&mut s, &cx, d, h, &parts_fixed(h, sa), &parts_fixed(h, sb), &x, x_desc, &format!("callbacks of {sa} frames vs callbacks of {sb} frames"));
+			}
+		}
+	}
 
 	// =============================================================== model cases (bit-exact)
 	let per_kind: usize = (if args.thorough { 300 } else { 45 }) * mul;
@@ -1396,6 +1709,87 @@ pub fn run(args: &Args) {
 		let sl1 = gen_slices(&mut rng, n1, t);
 		let sl2 = gen_slices(&mut rng, 12, t);
 		emit_case_sr(&mut s, &cx, &d, sr1, sr2, t, &sl1, &in1, &sl2, &in2);
+	}
+	// =============================================================== effects hosted by a send track: generated histories
+	{
+		let mut rng = Rng::new(args.seed ^ 0xC13_5E).fork();
+		// long runs (monitors only)
+		for i in 0..reps * 2 {
+			let sr0 = gen_sr(&mut rng);
+			let k = rng.range(1, 2) as usize;
+			let rates: Vec<u32> = (0..k).map(|_| if rng.chance(1, 5) { sr0 } else { gen_sr(&mut rng) }).collect();
+			let last = *rates.last().unwrap();
+			let mut d = match i % 4 {
+				0 | 1 => {
+					// a delay line that is shorter than the run (whole frames at the last rate, a little more in time)
+					let frames = rng.range(1, 900) as f64;
+					let nfx = rng.below(3);
+					let fx = (0..nfx).map(|_| gen_desc(&mut rng, last, 1, false, true, false)).collect();
+					Delay { time: Duration::from_secs_f64((frames + 0.25) / last as f64), fb: gen_db(&mut rng, -30.0, 0.0), mix: *rng.pick(&[1.0f32, 1.0, 0.5, 0.25]), fx }
+				}
+				2 => Reverb { fb: gen_unit_edge(&mut rng), damp: gen_unit_edge(&mut rng), width: gen_unit_edge(&mut rng), mix: *rng.pick(&[1.0f32, 0.5]) },
+				_ => gen_desc(&mut rng, last, 0, true, true, false),
+			};
+			stabilize(&mut d);
+			let ibs = *rng.pick(&[16usize, 64, 128, 512]);
+			let in_flight = if rng.chance(1, 3) { Some(gen_sr(&mut rng)) } else { None };
+			let n = if matches!(d, Reverb { .. }) { long_n.max(last as usize / 8) } else { long_n };
+			// idle segments, the rate changes spread over them and the playing segment(s)
+			let mut segs: Vec<(Option<u32>, usize)> = vec![];
+			let idle = rng.below(3) as usize;
+			for _ in 0..idle {
+				segs.push((None, rng.range(0, 300) as usize));
+			}
+			let play_before = segs.len();
+			if rng.chance(1, 4) {
+				// one change while the sound is playing
+				segs.push((None, n / 4));
+			}
+			segs.push((None, n));
+			for (j, r) in rates.iter().enumerate() {
+				// the last change lands on the last segment or on the one before it
+				let at = if j + 1 == rates.len() { segs.len() - 1 - (rng.below(2) as usize).min(segs.len() - 1) } else { rng.below(segs.len() as u64) as usize };
+				segs[at].0 = Some(*r);
+			}
+			let h = SendHist { ibs, sr0, in_flight, segs, play_before };
+			let x = noise(&mut rng, n * 3 / 4, 0.25);
+			let small = *rng.pick(&[16usize, 32, 64, 100]);
+			let pa = parts_fixed(&h, small);
+			let (pb, pdesc) = if i % 2 == 0 { (parts_fixed(&h, *rng.pick(&[512usize, 1024, 700])), "small fixed callbacks vs large fixed callbacks") } else { (parts_random(&mut rng, &h, 1500), "small fixed callbacks vs callbacks of random sizes") };
+			let x_desc = format!("{} frames of noise (amplitude 0.25, generated from the seed), then silence", x.len());
+			check_send_track(&mut s, &cx, &d, &h, &pa, &pb, &x, &x_desc, &format!("{pdesc}: {small} frames vs {:?}..", &pb.last().unwrap()[..pb.last().unwrap().len().min(4)]));
+		}
+		// short runs, also sent to the model (CaseSR: the effect of the send track is the modelled effect taken through
+		// init at the manager's rate, frames, one change of rate, frames)
+		for i in 0..(if args.thorough { 60 } else { 12 }) * mul {
+			let (sr0, sr1) = loop {
+				let p = (gen_sr(&mut rng), gen_sr(&mut rng));
+				if p.0 != p.1 {
+					break p;
+				}
+			};
+			let frames = rng.range(1, 6) as f64;
+			let mut d = match i % 3 {
+				0 => Delay { time: Duration::from_secs_f64((frames + 0.25) / sr0.max(sr1) as f64), fb: gen_db(&mut rng, -30.0, 0.0), mix: gen_mix(&mut rng), fx: vec![] },
+				1 => Delay { time: Duration::from_secs_f64((frames + 0.25) / sr0.max(sr1) as f64), fb: gen_db(&mut rng, -30.0, -3.0), mix: gen_mix(&mut rng), fx: vec![gen_desc(&mut rng, sr1, 2, false, true, false)] },
+				_ => loop {
+					let d = gen_desc(&mut rng, sr1, 1, false, true, false);
+					if !matches!(d, Reverb { .. }) {
+						break d;
+					}
+				},
+			};
+			stabilize(&mut d);
+			let ibs = *rng.pick(&[4usize, 8]);
+			let in_flight = i % 2 == 1;
+			let n0 = if in_flight { 0 } else { rng.range(3, 8) as usize };
+			let n1 = rng.range(10, 16) as usize;
+			let hh = SendHist { ibs, sr0, in_flight: None, segs: if in_flight { vec![(None, n1)] } else { vec![(None, n0), (None, n1)] }, play_before: 0 };
+			let pa = parts_random(&mut rng, &hh, 6);
+			let pb = parts_fixed(&hh, 16);
+			let x = noise(&mut rng, n0 + n1 - 3, 0.25);
+			model_send_track(&mut s, &cx, &d, ibs, sr0, sr1, n0, in_flight, &pa, &pb, &x, &format!("{:?}", x));
+		}
 	}
 	s.finish();
 }
